@@ -22,7 +22,7 @@ def build(tier, seed, exclude):
     g.raw(HELPERS)
     quick = tier == "quick"
     to = 100 if quick else 400
-    for kind in range(8):
+    for kind in range(11):
         g.cond(f"h_mutation_{kind}", "val: int, base: int", ["0 <= val <= 3 and 0 <= base <= 3"], f"""
             err = EN.c19({kind}, T.real(val), T.real(base))
             return T.fail(err) if err else True
@@ -31,4 +31,4 @@ def build(tier, seed, exclude):
         err = EN.c19(1, T.real(val), 1)
         return False
     """, timeout=120, kind="twin")
-    return g.spec(bounds={"mutation kinds": 8, "operand / base values": "0..3 (so that no-op mutations occur)"})
+    return g.spec(bounds={"mutation kinds": "11 (incl. making one input equal to another, swapping two inputs, last element of a 20000-element array)", "operand / base values": "0..3 (so that no-op mutations occur)"})
